@@ -41,6 +41,8 @@ structure PInv (d : DST) (L : Nat) (oa : List Args) (s : St) : Prop where
   sv : s.c.packetIsOpen = true → SavedOK d.pcOp.members s.c.saved (8 * L)
   oa : s.p.openArgs = oa
   sb : ∀ x ∈ s.p.setBufs, x.2 = L
+  oc : s.c.packetIsOpen = true → s.c.offContent ≤ s.c.at_
+  cz : s.c.contentSize ≤ 8 * L
 
 /-- what the invariant looks at is unchanged -/
 structure PSame (s s' : St) : Prop where
@@ -52,47 +54,48 @@ structure PSame (s s' : St) : Prop where
   isOpen : s'.c.packetIsOpen = s.c.packetIsOpen
   oa : s'.p.openArgs = s.p.openArgs
   sb : s'.p.setBufs = s.p.setBufs
+  offc : s'.c.offContent = s.c.offContent
+  csz : s'.c.contentSize = s.c.contentSize
 
-theorem PSame.refl (s : St) : PSame s s := ⟨rfl, rfl, rfl, rfl, rfl, rfl, rfl, rfl⟩
+theorem PSame.refl (s : St) : PSame s s := ⟨rfl, rfl, rfl, rfl, rfl, rfl, rfl, rfl, rfl, rfl⟩
 theorem PSame.trans {a b c : St} (h₁ : PSame a b) (h₂ : PSame b c) : PSame a c :=
   ⟨h₂.nh.trans h₁.nh, h₂.len.trans h₁.len, h₂.pkt.trans h₁.pkt, h₂.at_.trans h₁.at_, h₂.saved.trans h₁.saved,
-   h₂.isOpen.trans h₁.isOpen, h₂.oa.trans h₁.oa, h₂.sb.trans h₁.sb⟩
+   h₂.isOpen.trans h₁.isOpen, h₂.oa.trans h₁.oa, h₂.sb.trans h₁.sb, h₂.offc.trans h₁.offc, h₂.csz.trans h₁.csz⟩
 
 theorem PSame.inv {d : DST} {L : Nat} {oa : List Args} {s s' : St} (h : PSame s s') (hi : PInv d L oa s) :
     PInv d L oa s' :=
   ⟨h.nh.trans hi.nh, h.len.trans hi.len, h.pkt.trans hi.pkt, by rw [h.at_]; exact hi.at_,
-   by rw [h.isOpen, h.saved]; exact hi.sv, h.oa.trans hi.oa, by rw [h.sb]; exact hi.sb⟩
+   by rw [h.isOpen, h.saved]; exact hi.sv, h.oa.trans hi.oa, by rw [h.sb]; exact hi.sb,
+   by rw [h.isOpen, h.offc, h.at_]; exact hi.oc, by rw [h.csz]; exact hi.cz⟩
 
-theorem PSame.ev (s : St) (e : Ev) : PSame s (s.ev e) := ⟨rfl, rfl, rfl, rfl, rfl, rfl, rfl, rfl⟩
-theorem PSame.setFlag (s : St) (b : Bool) : PSame s (s.setFlag b) := ⟨rfl, rfl, rfl, rfl, rfl, rfl, rfl, rfl⟩
-theorem PSame.setEnabled (s : St) (b : Bool) : PSame s (s.setEnabled b) := ⟨rfl, rfl, rfl, rfl, rfl, rfl, rfl, rfl⟩
-theorem PSame.setUseCur (s : St) (b : Bool) : PSame s (s.setUseCur b) := ⟨rfl, rfl, rfl, rfl, rfl, rfl, rfl, rfl⟩
-theorem PSame.setCurTs (s : St) (v : Nat) : PSame s (s.setCurTs v) := ⟨rfl, rfl, rfl, rfl, rfl, rfl, rfl, rfl⟩
-theorem PSame.setContentSize (s : St) (v : Nat) : PSame s (s.setContentSize v) := ⟨rfl, rfl, rfl, rfl, rfl, rfl, rfl, rfl⟩
-theorem PSame.setDiscarded (s : St) (v : Nat) : PSame s (s.setDiscarded v) := ⟨rfl, rfl, rfl, rfl, rfl, rfl, rfl, rfl⟩
-theorem PSame.setSeqNum (s : St) (v : Nat) : PSame s (s.setSeqNum v) := ⟨rfl, rfl, rfl, rfl, rfl, rfl, rfl, rfl⟩
-theorem PSame.setOffContent (s : St) (v : Nat) : PSame s (s.setOffContent v) := ⟨rfl, rfl, rfl, rfl, rfl, rfl, rfl, rfl⟩
-theorem PSame.bumpOpen (s : St) : PSame s s.bumpOpen := ⟨rfl, rfl, rfl, rfl, rfl, rfl, rfl, rfl⟩
-theorem PSame.bumpClose (s : St) : PSame s s.bumpClose := ⟨rfl, rfl, rfl, rfl, rfl, rfl, rfl, rfl⟩
+theorem PSame.ev (s : St) (e : Ev) : PSame s (s.ev e) := ⟨rfl, rfl, rfl, rfl, rfl, rfl, rfl, rfl, rfl, rfl⟩
+theorem PSame.setFlag (s : St) (b : Bool) : PSame s (s.setFlag b) := ⟨rfl, rfl, rfl, rfl, rfl, rfl, rfl, rfl, rfl, rfl⟩
+theorem PSame.setEnabled (s : St) (b : Bool) : PSame s (s.setEnabled b) := ⟨rfl, rfl, rfl, rfl, rfl, rfl, rfl, rfl, rfl, rfl⟩
+theorem PSame.setUseCur (s : St) (b : Bool) : PSame s (s.setUseCur b) := ⟨rfl, rfl, rfl, rfl, rfl, rfl, rfl, rfl, rfl, rfl⟩
+theorem PSame.setCurTs (s : St) (v : Nat) : PSame s (s.setCurTs v) := ⟨rfl, rfl, rfl, rfl, rfl, rfl, rfl, rfl, rfl, rfl⟩
+theorem PSame.setDiscarded (s : St) (v : Nat) : PSame s (s.setDiscarded v) := ⟨rfl, rfl, rfl, rfl, rfl, rfl, rfl, rfl, rfl, rfl⟩
+theorem PSame.setSeqNum (s : St) (v : Nat) : PSame s (s.setSeqNum v) := ⟨rfl, rfl, rfl, rfl, rfl, rfl, rfl, rfl, rfl, rfl⟩
+theorem PSame.bumpOpen (s : St) : PSame s s.bumpOpen := ⟨rfl, rfl, rfl, rfl, rfl, rfl, rfl, rfl, rfl, rfl⟩
+theorem PSame.bumpClose (s : St) : PSame s s.bumpClose := ⟨rfl, rfl, rfl, rfl, rfl, rfl, rfl, rfl, rfl, rfl⟩
 
 theorem cbEnter_psame (k : CbKind) (s : St) : PSame s (cbEnter k s) := by
   unfold cbEnter
   simp only
-  split <;> exact ⟨rfl, rfl, rfl, rfl, rfl, rfl, rfl, rfl⟩
+  split <;> exact ⟨rfl, rfl, rfl, rfl, rfl, rfl, rfl, rfl, rfl, rfl⟩
 
 theorem cbClock_psame (clk : Clock) (s : St) : PSame s (cbClock clk s).2 := by
   have h1 := cbEnter_psame .clock s
   unfold cbClock
   simp only
   generalize cbEnter .clock s = s1 at h1
-  exact h1.trans ⟨rfl, rfl, rfl, rfl, rfl, rfl, rfl, rfl⟩
+  exact h1.trans ⟨rfl, rfl, rfl, rfl, rfl, rfl, rfl, rfl, rfl, rfl⟩
 
 theorem cbFull_psame (s : St) : PSame s (cbFull s).2 := by
   have h1 := cbEnter_psame .full s
   unfold cbFull
   simp only
   generalize cbEnter .full s = s1 at h1
-  exact h1.trans ⟨rfl, rfl, rfl, rfl, rfl, rfl, rfl, rfl⟩
+  exact h1.trans ⟨rfl, rfl, rfl, rfl, rfl, rfl, rfl, rfl, rfl, rfl⟩
 
 theorem preambleTs_psame (d : DST) (ft : Option Scalar) (s : St) : PSame s (preambleTs d ft s).2 := by
   unfold preambleTs
@@ -108,7 +111,7 @@ theorem traceClock_psame (d : DST) (s : St) : PSame s (traceClock d s) := by
   · exact (cbClock_psame _ s).trans (PSame.setCurTs _ _)
   · exact PSame.refl s
 
-theorem noSpace_psame (cf : Bool) (s : St) : PSame s (noSpace cf s).2 := ⟨rfl, rfl, rfl, rfl, rfl, rfl, rfl, rfl⟩
+theorem noSpace_psame (cf : Bool) (s : St) : PSame s (noSpace cf s).2 := ⟨rfl, rfl, rfl, rfl, rfl, rfl, rfl, rfl, rfl, rfl⟩
 
 /-! ### a serialisation pass that stays inside the buffer -/
 
@@ -117,10 +120,11 @@ theorem runSer_fields (f : SerSt → SerSt) (s : St) (hh : s.halted = false)
     let r := f { buf := s.buf, at_ := s.c.at_, saved := s.c.saved, stores := [], oob := false, leaves := [] }
     (runSer f s).halted = false ∧ (runSer f s).c.at_ = r.at_ ∧ (runSer f s).buf = r.buf ∧
     (runSer f s).c.packetSize = s.c.packetSize ∧ (runSer f s).c.saved = r.saved ∧
-    (runSer f s).c.packetIsOpen = s.c.packetIsOpen ∧ (runSer f s).p = s.p := by
+    (runSer f s).c.packetIsOpen = s.c.packetIsOpen ∧ (runSer f s).p = s.p ∧
+    (runSer f s).c.offContent = s.c.offContent ∧ (runSer f s).c.contentSize = s.c.contentSize := by
   unfold runSer installSer
   simp only [h, Bool.false_eq_true, if_false]
-  exact ⟨hh, rfl, rfl, rfl, rfl, rfl, rfl⟩
+  exact ⟨hh, rfl, rfl, rfl, rfl, rfl, rfl, rfl, rfl⟩
 
 section
 variable (cfg : Cfg) (d : DST) (L A : Nat) (oa : List Args)
@@ -131,7 +135,7 @@ variable (hhdr : ∀ args ∈ openArgsOf oa, hdrEndN cfg d args ≤ 8 * L)
 
 include hcfg hsmall hhdr in
 theorem openWrite_pinv (args : Args) (hargs : args ∈ openArgsOf oa) (ts : Nat) (saved : Bool) (s : St)
-    (hi : PInv d L oa s) : PInv d L oa (openWrite cfg d args ts saved s) := by
+    (hi : PInv d L oa s) (hclosed : s.c.packetIsOpen = false) : PInv d L oa (openWrite cfg d args ts saved s) := by
   unfold openWrite
   simp only
   have hfit := hhdr args hargs
@@ -153,10 +157,13 @@ theorem openWrite_pinv (args : Args) (hargs : args ∈ openArgsOf oa) (ts : Nat)
   have hr := runSer_fields
     (fun st => serRoot env "pc" d.pcOp args (serRoot env "ph" (DST.phOp cfg) [] st)) (s.setAt 0) hi.nh hpc.1
   simp only at hr
-  obtain ⟨r1, r2, r3, r4, r5, r6, r7⟩ := hr
+  obtain ⟨r1, r2, r3, r4, r5, r6, r7, r8, r9⟩ := hr
   have h2 : PInv d L oa (runSer (fun st => serRoot env "pc" d.pcOp args (serRoot env "ph" (DST.phOp cfg) [] st))
       (s.setAt 0)) := by
-    refine ⟨r1, ?_, ?_, ?_, ?_, ?_, ?_⟩
+    refine ⟨r1, ?_, ?_, ?_, ?_, ?_, ?_, ?_, ?_⟩
+    rotate_left 6
+    · intro ho; rw [r6] at ho; exact absurd (ho.symm.trans hclosed) (by simp)
+    · rw [r9]; exact hi.cz
     · rw [r3]; exact hpc.2.2
     · rw [r4]; exact hi.pkt
     · rw [r2]
@@ -180,7 +187,7 @@ theorem openWrite_pinv (args : Args) (hargs : args ∈ openArgsOf oa) (ts : Nat)
     generalize (if d.feat.tsBegin.isSome = true then s2.ev (.tsWrite "begin" ts) else s2) = s3 at h4
     have h5 := h4.inv h2
     exact ⟨h5.nh, h5.len, h5.pkt, h5.at_, fun _ => by show SavedOK _ s3.c.saved _; rw [h4.saved]; exact hsv2,
-      h5.oa, h5.sb⟩
+      h5.oa, h5.sb, fun _ => Nat.le_refl _, h5.cz⟩
 
 include hcfg hsmall hhdr in
 theorem openGuarded_pinv (args : Args) (hargs : args ∈ openArgsOf oa) (ts : Nat) (s : St) (hi : PInv d L oa s) :
@@ -191,7 +198,9 @@ theorem openGuarded_pinv (args : Args) (hargs : args ∈ openArgsOf oa) (ts : Na
   · exact (PSame.setFlag s false).inv hi
   · split
     · exact ((PSame.setFlag s true).trans (PSame.setFlag _ _)).inv hi
-    · exact openWrite_pinv cfg d L A oa hcfg hsmall hhdr args hargs ts _ _ ((PSame.setFlag s true).inv hi)
+    · rename_i hno
+      exact openWrite_pinv cfg d L A oa hcfg hsmall hhdr args hargs ts _ _ ((PSame.setFlag s true).inv hi)
+        (by simpa using hno)
 
 include hcfg hsmall hhdr in
 theorem openPacket_pinv (args : Args) (hargs : args ∈ openArgsOf oa) (s : St) (hi : PInv d L oa s) :
@@ -256,7 +265,14 @@ theorem findWrite_src (spec : String → Option WSrc) (n : String) (w : Write) :
 
 /-- a write-back keeps the invariant and leaves the packet open -/
 structure PInvO (d : DST) (L : Nat) (oa : List Args) (s : St) : Prop where
-  inv : PInv d L oa s
+  nh : s.halted = false
+  len : s.buf.length = L
+  pkt : s.c.packetSize = 8 * L
+  at_ : s.c.at_ ≤ 8 * L
+  sv : SavedOK d.pcOp.members s.c.saved (8 * L)
+  oa : s.p.openArgs = oa
+  sb : ∀ x ∈ s.p.setBufs, x.2 = L
+  cz : s.c.contentSize ≤ 8 * L
   isOpen : s.c.packetIsOpen = true
 
 include hcfg hsmall in
@@ -270,7 +286,7 @@ theorem writeBack_pinv (env : SerEnv) (name : String) (hskip : ((specPC name).ge
     · rename_i w hw
       have hsrc : w.src = (specPC name).getD .arg :=
         findWrite_src specPC name w d.pcStruct.members _ hcfg.pcNoUuid hw
-      obtain ⟨off, h1, h2, h3⟩ := hi.inv.sv hi.isOpen name w hw (by rw [hsrc]; exact hskip)
+      obtain ⟨off, h1, h2, h3⟩ := hi.sv name w hw (by rw [hsrc]; exact hskip)
       have hoff : (s.c.saved.lookup name).getD 0 = off := by rw [h1]; rfl
       rw [hoff]
       have hwb : writeBits env w.sc w.oib v
@@ -280,27 +296,27 @@ theorem writeBack_pinv (env : SerEnv) (name : String) (hskip : ((specPC name).ge
         writeBits_erase env w.sc w.oib v _ h3
       have hin := writeBits_in env w.sc v
         { buf := s.buf, at_ := off, saved := s.c.saved, stores := [], oob := false, leaves := [] } rfl
-        (by show off + w.sc.size ≤ 8 * s.buf.length; rw [hi.inv.len]; exact h2)
-        (by show 8 * s.buf.length < 2 ^ 32; rw [hi.inv.len]; have := hcfg.Apos; omega)
+        (by show off + w.sc.size ≤ 8 * s.buf.length; rw [hi.len]; exact h2)
+        (by show 8 * s.buf.length < 2 ^ 32; rw [hi.len]; have := hcfg.Apos; omega)
       rw [← hwb] at hin
-      have hr := runSer_fields (fun st => writeBits env w.sc w.oib v st) (s.setAt off) hi.inv.nh hin.1
+      have hr := runSer_fields (fun st => writeBits env w.sc w.oib v st) (s.setAt off) hi.nh hin.1
       simp only at hr
-      obtain ⟨r1, r2, r3, r4, r5, r6, r7⟩ := hr
-      refine ⟨⟨r1, ?_, ?_, ?_, ?_, ?_, ?_⟩, ?_⟩
-      · rw [r3]; exact hin.2.2.2.trans hi.inv.len
-      · rw [r4]; exact hi.inv.pkt
+      obtain ⟨r1, r2, r3, r4, r5, r6, r7, r8, r9⟩ := hr
+      refine ⟨r1, ?_, ?_, ?_, ?_, ?_, ?_, ?_, ?_⟩
+      · rw [r3]; exact hin.2.2.2.trans hi.len
+      · rw [r4]; exact hi.pkt
       · rw [r2]
         have hle : (writeBits env w.sc w.oib v
           { buf := s.buf, at_ := off, saved := s.c.saved, stores := [], oob := false, leaves := [] }).at_ ≤ 8 * L := by
           rw [hin.2.1]; exact h2
         exact hle
-      · intro _
-        rw [r5]
+      · rw [r5]
         show SavedOK _ (writeBits env w.sc w.oib v _).saved _
         rw [writeBits_saved]
-        exact hi.inv.sv hi.isOpen
-      · rw [r7]; exact hi.inv.oa
-      · rw [r7]; exact hi.inv.sb
+        exact hi.sv
+      · rw [r7]; exact hi.oa
+      · rw [r7]; exact hi.sb
+      · rw [r9]; exact hi.cz
       · rw [r6]; exact hi.isOpen
 
 include hcfg hsmall in
@@ -320,31 +336,33 @@ theorem closeBacks_pinv (ts : Nat) (s : St) (hi : PInvO d L oa s) : PInvO d L oa
   · exact writeBack_pinv cfg d L A oa hcfg hsmall env "events_discarded" rfl _ s2 h2
   · exact h2
 
-theorem closeFinish_pinv (ts : Nat) (saved : Bool) (s : St) (hi : PInv d L oa s) :
+theorem closeFinish_pinv (ts : Nat) (saved : Bool) (s : St) (hi : PInvO d L oa s) :
     PInv d L oa (closeFinish d ts saved s) := by
   unfold closeFinish
   split
-  · exact hi
+  · rename_i hh; rw [hi.nh] at hh; exact absurd hh (by simp)
   · simp only
     have h4 : PSame s (if d.feat.tsEnd.isSome = true then s.ev (.tsWrite "end" ts) else s) := by
       split
       · exact PSame.ev _ _
       · exact PSame.refl _
     generalize (if d.feat.tsEnd.isSome = true then s.ev (.tsWrite "end" ts) else s) = s3 at h4
-    have h5 := h4.inv hi
+    have hpk : s3.c.packetSize = 8 * L := h4.pkt.trans hi.pkt
     split
-    · exact ⟨h5.nh, h5.len, h5.pkt, by show s3.c.packetSize ≤ _; rw [h5.pkt]; exact Nat.le_refl _,
-        fun h => by simp at h, h5.oa, h5.sb⟩
-    · exact ⟨h5.nh, h5.len, h5.pkt, by show s3.c.packetSize ≤ _; rw [h5.pkt]; exact Nat.le_refl _,
-        fun h => by simp at h, h5.oa, h5.sb⟩
+    · exact ⟨h4.nh.trans hi.nh, h4.len.trans hi.len, hpk, by show s3.c.packetSize ≤ _; rw [hpk]; exact Nat.le_refl _,
+        fun h => by simp at h, h4.oa.trans hi.oa, by show ∀ x ∈ s3.p.setBufs, _; rw [h4.sb]; exact hi.sb,
+        fun h => by simp at h, by show s3.c.contentSize ≤ _; rw [h4.csz]; exact hi.cz⟩
+    · exact ⟨h4.nh.trans hi.nh, h4.len.trans hi.len, hpk, by show s3.c.packetSize ≤ _; rw [hpk]; exact Nat.le_refl _,
+        fun h => by simp at h, h4.oa.trans hi.oa, by show ∀ x ∈ s3.p.setBufs, _; rw [h4.sb]; exact hi.sb,
+        fun h => by simp at h, by show s3.c.contentSize ≤ _; rw [h4.csz]; exact hi.cz⟩
 
 include hcfg hsmall in
-theorem closeWrite_pinv (ts : Nat) (saved : Bool) (s : St) (hi : PInvO d L oa s) :
+theorem closeWrite_pinv (ts : Nat) (saved : Bool) (s : St) (hi : PInv d L oa s) (ho : s.c.packetIsOpen = true) :
     PInv d L oa (closeWrite cfg d ts saved s) := by
   unfold closeWrite
   exact closeFinish_pinv d L oa ts saved _
     (closeBacks_pinv cfg d L A oa hcfg hsmall ts (s.setContentSize s.c.at_)
-      ⟨(PSame.setContentSize s s.c.at_).inv hi.inv, hi.isOpen⟩).inv
+      ⟨hi.nh, hi.len, hi.pkt, hi.at_, hi.sv ho, hi.oa, hi.sb, hi.at_, ho⟩)
 
 include hcfg hsmall in
 theorem closeGuarded_pinv (ts : Nat) (s : St) (hi : PInv d L oa s) : PInv d L oa (closeGuarded cfg d ts s) := by
@@ -355,8 +373,7 @@ theorem closeGuarded_pinv (ts : Nat) (s : St) (hi : PInv d L oa s) : PInv d L oa
   · split
     · exact ((PSame.setFlag s true).trans (PSame.setFlag _ _)).inv hi
     · rename_i hopen
-      refine closeWrite_pinv cfg d L A oa hcfg hsmall ts _ _ ⟨(PSame.setFlag s true).inv hi, ?_⟩
-      simpa using hopen
+      exact closeWrite_pinv cfg d L A oa hcfg hsmall ts _ _ ((PSame.setFlag s true).inv hi) (by simpa using hopen)
 
 include hcfg hsmall in
 theorem closePacket_pinv (s : St) (hi : PInv d L oa s) : PInv d L oa (closePacket cfg d s) := by
@@ -371,8 +388,9 @@ theorem setBuf_pinv (hA : 0 < A) (s : St) (hi : PInv d L oa s) : PInv d L oa (se
   unfold setBuf
   simp only [hu]
   split
-  · exact ⟨hi.nh, by simp, rfl, Nat.le_refl _, hi.sv, hi.oa, hi.sb⟩
-  · exact ⟨hi.nh, by simp, rfl, hi.at_, hi.sv, hi.oa, hi.sb⟩
+  · exact ⟨hi.nh, by simp, rfl, Nat.le_refl _, hi.sv, hi.oa, hi.sb,
+      fun h => Nat.le_trans (hi.oc h) hi.at_, hi.cz⟩
+  · exact ⟨hi.nh, by simp, rfl, hi.at_, hi.sv, hi.oa, hi.sb, hi.oc, hi.cz⟩
 
 include hsmall in
 theorem deliverAndSwap_pinv (hA : 0 < A) (wasOpen : Bool) (n : Nat) (s : St) (hi : PInv d L oa s) :
@@ -480,9 +498,26 @@ theorem traceWrite_pinv (e : ERT) (he : e ∈ d.erts) (args : Args) (hargs : Arg
     s.buf.length s.c.packetSize hp.pkt hp.small rfl rfl hp.at_ (recordEndN_ge A d e hok args s.c.at_) hnw hfit
   have hr := runSer_fields (serRecord (serEnvOf cfg d e.id s.c.curLastEventTs s.c) d e args) s hi.nh hin.1
   simp only at hr
-  obtain ⟨r1, r2, r3, r4, r5, r6, r7⟩ := hr
+  obtain ⟨r1, r2, r3, r4, r5, r6, r7, r8, r9⟩ := hr
+  have hge : s.c.at_ ≤ (serRecord (serEnvOf cfg d e.id s.c.curLastEventTs s.c) d e args
+      { buf := s.buf, at_ := s.c.at_, saved := s.c.saved, stores := [], oob := false, leaves := [] }).at_ := by
+    have hle := recordEndN_ge A d e hok args s.c.at_
+    have hfit' := hfit
+    rw [erSizeAt_exact A d e hok args s.c.at_ hnw hle] at hfit'
+    have hroom : s.c.room s.c.at_ = s.c.packetSize - s.c.at_ := by
+      unfold Ctx.room subU32; rw [if_pos hp.at_]
+    rw [hroom] at hfit'
+    have hrb := record_in_bounds (serEnvOf cfg d e.id s.c.curLastEventTs s.c) A d e hok args
+      { buf := s.buf, at_ := s.c.at_, saved := s.c.saved, stores := [], oob := false, leaves := [] }
+      s.buf.length hp.small rfl rfl (by have := hp.pkt; have := hp.at_; show recordEndN d e args s.c.at_ ≤ _; omega)
+    rw [hrb.2.1]; exact hle
   have h1 : PInv d L oa (runSer (serRecord (serEnvOf cfg d e.id s.c.curLastEventTs s.c) d e args) s) := by
-    refine ⟨r1, ?_, ?_, ?_, ?_, ?_, ?_⟩
+    refine ⟨r1, ?_, ?_, ?_, ?_, ?_, ?_, ?_, ?_⟩
+    rotate_left 6
+    · intro ho
+      rw [r8, r2]
+      exact Nat.le_trans (hi.oc (by rw [← r6]; exact ho)) hge
+    · rw [r9]; exact hi.cz
     · rw [r3, hin.2.2]; exact hi.len
     · rw [r4]; exact hi.pkt
     · rw [r2]
@@ -604,7 +639,8 @@ end
 theorem rtInit_pinv (d : DST) (L A : Nat) (hA : 0 < A) (hsmall : 8 * L + A ≤ 2 ^ 32) (p : Plat) (hsb : ∀ x ∈ p.setBufs, x.2 = L) :
     PInv d L p.openArgs (rtInit L p) := by
   have hu : u32 (L * 8) = 8 * L := by simp only [u32]; omega
-  refine ⟨rfl, by simp [rtInit], ?_, Nat.zero_le _, fun h => by simp [rtInit] at h, rfl, hsb⟩
+  refine ⟨rfl, by simp [rtInit], ?_, Nat.zero_le _, fun h => by simp [rtInit] at h, rfl, hsb,
+    fun h => by simp [rtInit] at h, Nat.zero_le _⟩
   show u32 (L * 8) = 8 * L
   exact hu
 
